@@ -38,6 +38,12 @@ OPTIMIZERS = {
                      "generate_fd_metrics": True},
               "rep", SHAPES_C),
     "ds_sharded": ("ds", {"reuse_preconditioner": True}, "sharded", SHAPES),
+    # sharded, a parameter excluded from preconditioning first in flatten
+    # order; restored into the target declared by shape_and_dtype_fn
+    "ds_sharded_declared": ("ds", {"skip_preconditioning_rank_lt": 2,
+                                   "best_effort_shape_interpretation": False},
+                            "sharded", {"a_bias": [5], "kernel": [4, 3],
+                                        "z": [3, 3]}),
     "ds_lobpcg": ("ds", {"lobpcg_topk_precondition": 1, "block_size": 8},
                   "rep", SHAPES_C),
     "sm3": ("sm3", {"beta1": 0.9, "beta2": 0.999}, "rep", SHAPES),
@@ -152,6 +158,14 @@ def run_task(task):
     data = serialization.to_bytes(hs)
     fresh = Machine(spec)                # fresh object, fresh trace
     template = fresh.init()
+    if task["opt"] == "ds_sharded_declared":
+      # the restore target a pjit user builds: zeros of the declared shapes
+      import jax.numpy as jnp
+      sd = fresh.runner.init_fns.shape_and_dtype_fn(fresh.runner.params)
+      is_sd = lambda x: isinstance(x, list) and len(x) == 2 and \
+          isinstance(x[0], (list, tuple)) and not isinstance(x[1], list)
+      template = jax.tree_util.tree_map(
+          lambda x: jnp.zeros(tuple(x[0]), x[1]), sd, is_leaf=is_sd)
     try:
       restored = serialization.from_bytes(template, data)
     except Exception as e:  # pylint: disable=broad-except
